@@ -70,6 +70,14 @@ def judge_keys(case, acc, ctx):
         pname = case.get("prefix", "my key")
         prefix = os.path.join(d, pname)
         os.makedirs(os.path.dirname(prefix), exist_ok=True)
+        kg = None
+        if case.get("route") == "object":
+            # library use: ONE KeyGenerator object produces all the pairs of the sequence
+            from suit_generator import cmd_keys as _ck
+
+            if not hasattr(_ck, "KeyGenerator"):
+                raise boot.HarnessError("cmd_keys.KeyGenerator has vanished")
+            kg = _ck.KeyGenerator()
         for i, r in enumerate(case["runs"]):
             if not case.get("reuse", True):
                 for f in _files(d):
@@ -81,6 +89,8 @@ def judge_keys(case, acc, ctx):
                     ok, res = sut.cli_ok(["keys", "--output-file", prefix, "--type", r["type"], "--encoding", r["enc"], "--private-format", r["priv"], "--public-format", r["pub"]], d)
                     if not ok:
                         raised = RuntimeError(f"exit {res.returncode}")
+                elif kg is not None:
+                    kg.create_key_pair(prefix, r["type"], r["enc"], r["priv"], r["pub"], "none")
                 else:
                     from suit_generator import cmd_keys
 
@@ -91,7 +101,7 @@ def judge_keys(case, acc, ctx):
                 raised = e
             default = r["priv"] == "pkcs8" and r["pub"] == "default"
             acc.case(nt_key=("keys", r["type"], r["enc"], r["priv"], r["pub"], i) if (not default or i > 0) else None,
-                     classes=["keys", f"type:{r['type']}", f"enc:{r['enc']}", "prefix:dotted" if "." in os.path.basename(prefix) else "prefix:plain", "default-formats" if default else "other-formats", f"run:{i}", "accepted" if raised is None else "reported-unsupported"],
+                     classes=["keys", f"type:{r['type']}", f"enc:{r['enc']}", "prefix:dotted" if "." in os.path.basename(prefix) else "prefix:plain", "default-formats" if default else "other-formats", f"run:{i}", f"keys-route:{case.get('route', 'main')}", "accepted" if raised is None else "reported-unsupported"],
                      sample=case, sample_key=f"keys/{r['type']}/{raised is None}")
             after = {f: open(f, "rb").read() for f in _files(d) if not f.endswith(".log")}
             if raised is not None:
@@ -258,6 +268,18 @@ def judge_convert(case, acc, ctx, clang=False):
                 ok, r = sut.cli_ok(args, d)
                 if not ok:
                     raised = RuntimeError(f"exit {r.returncode}: {r.stderr[-200:]}")
+            elif case.get("route") == "object":
+                # library use: ONE KeyConverter object - preview the text, write the file, preview again; each result is the complete file
+                from suit_generator import cmd_convert
+
+                if not hasattr(cmd_convert, "KeyConverter"):
+                    raise boot.HarnessError("cmd_convert.KeyConverter has vanished")
+                conv = cmd_convert.KeyConverter(**kw)
+                previews = [conv.prepare_file_contents()]
+                conv.generate_c_file()
+                previews.append(conv.prepare_file_contents())
+                if case["scalar"] % 2:
+                    conv.generate_c_file()
             else:
                 from suit_generator import cmd_convert
 
@@ -272,12 +294,17 @@ def judge_convert(case, acc, ctx, clang=False):
             cls = sorted(set(coord_class(want[:w]) + coord_class(want[w:])))
         default_opts = o == default_options()
         acc.case(nt_key=(kt, tuple(cls), json.dumps(o, sort_keys=True)) if (cls or not default_opts) else None,
-                 classes=["convert", f"type:{kt}"] + ([f"pem-form:{case['pem_form']}"] if case.get("pem_form") else []) + [f"coord:{c}" for c in cls] + (["default-layout"] if default_opts else ["custom-layout"]) + (["compiled"] if clang else []),
+                 classes=["convert", f"type:{kt}", f"convert-route:{case.get('route', 'main')}"] + ([f"pem-form:{case['pem_form']}"] if case.get("pem_form") else []) + [f"coord:{c}" for c in cls] + (["default-layout"] if default_opts else ["custom-layout"]) + (["compiled"] if clang else []),
                  sample=case, sample_key=f"conv/{kt}/{'+'.join(cls)}")
         if raised is not None:
             raise Violation(f"convert failed on a valid {kt} key: {type(raised).__name__}: {str(raised)[:200]}", "C file", bucket="convert-failed")
         with open(out) as fh:
             text = fh.read()
+        if case.get("route") == "object":
+            for j, pv in enumerate(previews):
+                if pv != text:
+                    raise Violation(f"one KeyConverter object: text prepared {'before' if j == 0 else 'after'} writing the file differs from the file written "
+                                    f"({len(pv)} / {len(text)} characters)", "the same complete C text every time", bucket="object-reuse")
         got, m = parse_c(text, o["array_name"])
         if got != want:
             where = next((i for i in range(min(len(got), len(want))) if got[i] != want[i]), min(len(got), len(want)))
@@ -326,7 +353,7 @@ def plan(ctx):
         specs.append({"kind": "keys-volume", "type": t, "enc": "pem" if t != "secp384r1" else "der", "n": (800 if t in CURVES else 200) if not ctx.thorough else 20000})
     per = 400 if not ctx.thorough else 4000
     for i in range(5):
-        specs.append({"kind": "convert-gen", "i": i, "n": per if i < 4 else 10, "route": "cli" if i == 4 else "main"})
+        specs.append({"kind": "convert-gen", "i": i, "n": per if i < 4 else 10, "route": "cli" if i == 4 else "object" if i == 3 else "main"})
     if ctx.thorough:
         specs.append({"kind": "convert-clang"})
     return specs
@@ -359,6 +386,12 @@ def run_shard(ctx, spec):
                 _try(acc, "keys", {"runs": [a, b], "reuse": True}, judge_keys, ctx)
             for t in CURVES:
                 _try(acc, "keys", {"runs": [{"type": t, "enc": enc, "priv": "pkcs8", "pub": "default"}, {"type": t, "enc": enc, "priv": "pkcs1", "pub": "default"}], "reuse": True}, judge_keys, ctx)
+            # one generator object, several pairs (same and different types, a refused combination in between), fresh and reused prefixes
+            for j, t1 in enumerate(TYPES):
+                t2, t3 = TYPES[(j + 1) % len(TYPES)], TYPES[(j + 2) % len(TYPES)]
+                runs = [{"type": t1, "enc": enc, "priv": "pkcs8", "pub": "default"}, {"type": t1, "enc": enc, "priv": "pkcs8", "pub": "default"},
+                        {"type": t2, "enc": enc, "priv": "pkcs1", "pub": "pkcs1"}, {"type": t3, "enc": enc, "priv": "pkcs8", "pub": "default"}]
+                _try(acc, "keys", {"runs": runs, "reuse": bool(j % 2), "route": "object"}, judge_keys, ctx)
     elif kind == "keys-volume":
         # the generated key is random: properties of rare keys (a public coordinate with leading zero bits occurs once in 2^k pairs)
         # are only met by volume. Every pair is loaded and cross-checked; pairs with a leading zero BYTE in X or Y are the non-trivial ones.
@@ -433,6 +466,6 @@ def replay(ctx, check, case):
 def finalize(ctx, m, ev):
     c = m["counters"]
     ev["coverage"]["exhaustive_scope"] = "keys: 40-combination product and all ordered type pairs per encoding enumerated; convert: constructed boundary keys + sampled layouts"
-    for n in ["accepted", "reported-unsupported", "run:1", "prefix:dotted", "existing-output-overwritten", "coord:lead00", "coord:lead04", "coord:tail00", "type:ed448", "custom-layout", "keys-volume", "pair:leading-zero-coordinate", "pem-form:ecparams", "pem-form:bom", "pem-form:crlf", "pem-form:bag-attributes"]:
+    for n in ["accepted", "reported-unsupported", "run:1", "prefix:dotted", "existing-output-overwritten", "coord:lead00", "coord:lead04", "coord:tail00", "type:ed448", "custom-layout", "keys-volume", "pair:leading-zero-coordinate", "pem-form:ecparams", "pem-form:bom", "pem-form:crlf", "pem-form:bag-attributes", "keys-route:object", "convert-route:object", "convert-route:cli"]:
         if not c.get(n):
             raise boot.HarnessError(f"interesting class {n} is empty")
